@@ -161,6 +161,38 @@ impl<F: Fam> Ctx<F> {
                 }
                 self.after_op(s, &[C01], true)
             }
+            Op::TightShrink { s } => {
+                let s = (*s & 1) as usize;
+                let st = self.st(s);
+                let l = st.l();
+                if l > 0 {
+                    let need = st.hook.main_len + l + (l + self.r - 1) / self.r;
+                    // capacities hashbrown can have: 3, 7, then 7/8 of a power of two
+                    let mut b = 3usize;
+                    let mut best = 0usize;
+                    let mut buckets = 4usize;
+                    while b <= need {
+                        best = b;
+                        buckets *= 2;
+                        b = if buckets == 8 { 7 } else { buckets / 8 * 7 };
+                    }
+                    let to_remove = need.saturating_sub(best);
+                    if best > 0 && to_remove > 0 && to_remove < st.hook.main_len && to_remove <= 300 {
+                        let mut removed = 0;
+                        let keys: Vec<u32> = self.slots[s].model.keys().copied().collect();
+                        for kk in keys {
+                            if removed >= to_remove {
+                                break;
+                            }
+                            if self.in_old(s, kk) == Some(false) {
+                                self.do_remove(s, kk, false)?;
+                                removed += 1;
+                            }
+                        }
+                    }
+                }
+                self.do_shrink(s, None)
+            }
             Op::RemoveAll { s } => {
                 let s = (*s & 1) as usize;
                 let keys: Vec<u32> = self.slots[s].model.keys().copied().collect();
@@ -985,6 +1017,12 @@ impl<F: Fam> Ctx<F> {
         let (p0, p1) = (self.st(0), self.st(1));
         if want && (p0.old_present() != p1.old_present() || p0.hook.main_buckets != p1.hook.main_buckets) {
             self.nt(C14);
+        }
+        if want {
+            let (e0, e1) = (self.slots[0].map.is_empty(), self.slots[1].map.is_empty());
+            if e0 != e1 || p0.len != p1.len {
+                fail!(self, [C14], "eq-but-distinguishable", "two maps with the same contents report is_empty() {} / {} and len() {} / {}", e0, e1, p0.len, p1.len);
+            }
         }
         self.ledger_check(&[])
     }
